@@ -138,6 +138,9 @@ class FakeZipModule:
         self.ZipFile = ZipFile
         self.closed = False
 
+    def __getattr__(self, name):
+        return getattr(zipfile, name)
+
 
 class FakeEtModule:
     def __init__(self, root, parse_fault=None):
@@ -155,6 +158,17 @@ class FakeEtModule:
                 return root
 
         return Tree()
+
+    def fromstring(self, data, parser=None):
+        # (the other documented way to get the root element of a document)
+        if self.parse_fault is not None:
+            raise self.parse_fault
+        return self.root
+
+    XML = fromstring
+
+    def __getattr__(self, name):
+        return getattr(ElementTree, name)
 
 
 class MultiInt:
@@ -537,6 +551,23 @@ def native_features():
                 if got != table:
                     failures.append(dict(key="ods-document-encoding", what="content.xml encoded as %s (trailing %r) read as %r" % (enc, tail, got),
                                          args=dict(encoding=enc, tail=tail)))
+        # documents the XML parser cannot decode (multi-byte / unknown encodings): a data format error like any other
+        for enc_name in ("Shift_JIS", "EUC-JP", "GB2312", "no-such-encoding", "utf-32"):
+            n += 1
+            p = os.path.join(d, "undecodable_%s.ods" % enc_name.replace("-", "_"))
+            doc = encode_document([("s", [["a", "b"]])]).replace('encoding="UTF-8"', 'encoding="%s"' % enc_name)
+            with zipfile.ZipFile(p, "w", zipfile.ZIP_DEFLATED) as z:
+                z.writestr("mimetype", "application/vnd.oasis.opendocument.spreadsheet")
+                z.writestr("content.xml", doc.encode("ascii"))
+            try:
+                got = list(rowio.ods_rows(p, 1))
+                if got != [["a", "b"]]:
+                    failures.append(dict(key="ods-document-encoding", what="content.xml declaring %s read as %r" % (enc_name, got), args=dict(encoding=enc_name)))
+            except errors.DataFormatError:
+                pass
+            except Exception as e:  # noqa
+                failures.append(dict(key="ods-fault-encoding", what="content.xml declaring %s raised %s: %s" % (enc_name, type(e).__name__, e),
+                                     args=dict(encoding=enc_name)))
         # a commented cell: the paragraphs of the office:annotation are not part of the cell's value; covered cells
         # (table:covered-table-cell) take a column like any cell
         n += 1
